@@ -288,8 +288,11 @@ def deep_link_scenarios(ctx):
               [GL_, lit('x'), GS, lit('f')], [lit('e'), GL_, lit('f')], [GL_, lit('x'), GL_, lit('f')], [GS, lit('x'), GL_, lit('f')],
               [GL_, ST, GS, lit('g')], [lit('e'), GL_, lit('sub'), GS], [GL_, lit('ld'), GS], [GS, lit('ld'), ST], [ST, GL_, lit('g')],
               [GL_, lit('y'), GS, lit('f')], [lit('e'), GS, lit('ld2'), GL_, lit('g')], [lit('top'), GS], [GL_, lit('m'), GS, lit('z')],
-              [GL_, lit('lnk'), GS, lit('z')], [GS, lit('m'), GL_, lit('z')]]
-    fsets = [('GLOBSTARLONG',), ('GLOBSTARLONG', 'FOLLOW'), ('GLOBSTAR',), ('GLOBSTAR', 'FOLLOW'), ('GLOBSTARLONG', 'DOTGLOB', 'NODIR')]
+              [GL_, lit('lnk'), GS, lit('z')], [GS, lit('m'), GL_, lit('z')],
+              # adjacent recursive segments are one segment, but the text still holds a separator (MATCHBASE does not apply)
+              [GS, GS], [GS, GS, lit('f')], [GL_, GS], [GS, GL_], [GS, GS, GS], [lit('f')], [ST]]
+    fsets = [('GLOBSTARLONG',), ('GLOBSTARLONG', 'FOLLOW'), ('GLOBSTAR',), ('GLOBSTAR', 'FOLLOW'), ('GLOBSTARLONG', 'DOTGLOB', 'NODIR'),
+             ('GLOBSTARLONG', 'FOLLOW', 'MATCHBASE'), ('GLOBSTAR', 'MATCHBASE')]
     idx = 0
     for ti, spec in enumerate([DEEP_LINK_TREE] + list(FIXED_TREES)):
         todo = []
